@@ -244,6 +244,67 @@ def random_program(item):
         shutil.rmtree(root, ignore_errors=True)
 
 
+# ---------------------------------------------------------------------------
+# type inference of iterable sources: spec/Infer.tla
+
+CLASS_VALUES = None
+
+
+def class_values():
+    import datetime
+    from decimal import Decimal
+    return {'str': ['x', 'hello'], 'bool': [True, False], 'int': [3, -1], 'float': [1.5, -2.25], 'dec': [Decimal('1.50')],
+            'list': [[1, 'a'], []], 'dict': [{'k': 1}, {}], 'datetime': [datetime.datetime(2020, 1, 2, 3, 4, 5)], 'date': [datetime.date(2020, 1, 2)],
+            'time': [datetime.time(1, 2, 3)], 'timedelta': [datetime.timedelta(days=1, seconds=5)], 'set': [{1, 2}], 'bytes': [b'xy'], 'none': [None]}
+
+
+def model_infer(rep):
+    wd = tlc.workdir('c02i')
+    cfg = tlc.write_cfg(os.path.join(wd, 'inf.cfg'), constants={'UnknownCounts': 'TRUE'}, invariants=['InferredTypeAdmitsValues'], constraints=['Export'])
+    res = tlc.run_tlc('Infer', cfg, workers=1, allow_violation=False)
+    rep.add_tlc(res, 'Infer: every non-empty set of 14 Python value classes as a sample column: the inferred type admits every value (UnknownCounts = TRUE, the code)')
+    cfg = tlc.write_cfg(os.path.join(wd, 'inf0.cfg'), constants={'UnknownCounts': 'FALSE'}, invariants=['InferredTypeAdmitsValues'])
+    if not tlc.run_tlc('Infer', cfg).violated:
+        raise tlc.MachineryError('non-vacuity: Infer with UnknownCounts=FALSE (the pinned classifier) must violate InferredTypeAdmitsValues')
+    cfg = tlc.write_cfg(os.path.join(wd, 'inf1.cfg'), constants={'UnknownCounts': 'FALSE'}, invariants=['PinnedWrongOnlyWhenMixedWithUnknown'])
+    r1 = tlc.run_tlc('Infer', cfg, allow_violation=False)
+    rep.add_tlc(r1, 'Infer: the pinned classifier is wrong only when one known type is mixed with values of a class it does not know')
+    return res.cases
+
+
+def infer_case(c):
+    """a sample column whose values have exactly the classes of the case, as an iterable source (each order of first appearance)"""
+    from dataflows import Flow
+    from tableschema import Field
+    setup_repo()
+    vals = class_values()
+    classes = sorted(c['col'])
+    problems = []
+    import itertools
+    for order in itertools.permutations(classes):
+        rows = [dict(id=i, v=x) for i, x in enumerate([y for cl in order for y in vals[cl]])]
+        if all(r_['v'] is None for r_ in rows):
+            continue
+        try:
+            with contextlib.redirect_stdout(io.StringIO()), contextlib.redirect_stderr(io.StringIO()):
+                res, dp, _ = Flow([dict(r_) for r_ in rows]).results()
+        except Exception as e:
+            problems.append('results() raises for a column of %s: %s' % (list(order), str(getattr(e, 'cause', e))[:120]))
+            continue
+        fd = [f for f in dp.descriptor['resources'][0]['schema']['fields'] if f['name'] == 'v'][0]
+        if fd['type'] != c['type']:
+            problems.append('declared type %s, the model says %s (column %s)' % (fd['type'], c['type'], list(order)))
+        f = Field(fd)
+        for r_ in res[0]:
+            try:
+                f.cast_value(r_['v'])
+            except Exception:
+                problems.append('value %r is not valid for the declared type %s' % (r_['v'], fd['type']))
+        if len(res[0]) != len(rows):
+            problems.append('rows lost')
+    return dict(ok=not problems, problems=problems[:4], why=(problems[0][:60] if problems else ''))
+
+
 def run():
     rep = Report(PROP)
     t = rep.tier
@@ -268,6 +329,16 @@ def run():
         elif out.get('drift'):
             rep.model_drift(out['drift'], dict(input=c['input'], prog=c['prog'], got=out['got'], want=out['want']))
     rep.sample(dict(program=cases[len(cases) // 2]))
+    icases = model_infer(rep)
+    ires = pmap(infer_case, icases, chunksize=16)
+    errs = harness_errors(ires)
+    if errs:
+        raise tlc.MachineryError('harness error in inference replay: ' + errs[0])
+    for c, out in zip(icases, ires):
+        rep.count(1, traces=1)
+        rep.mark_distinct(dict(infer=c['col']))
+        if not out['ok']:
+            rep.violation(dict(infer=c), dict(column_classes=c['col'], model_type=c['type'], problems=out['problems']), category='inference/%s' % out['why'])
     ritems = [dict(seed=r.randrange(10 ** 9)) for _ in range(1200 if t == 'quick' else 20000)]
     rres = pmap(random_program, ritems, chunksize=8)
     errs = harness_errors(rres)
@@ -293,7 +364,7 @@ def replay(path):
     setup_repo()
     rec = json.load(open(path))
     c = rec['case']
-    out = replay_case(c) if 'prog' in c else random_program(c)
+    out = infer_case(c['infer']) if 'infer' in c else replay_case(c) if 'prog' in c else random_program(c)
     print(json.dumps(out, default=str)[:1500])
     if not out['ok'] and not out.get('drift'):
         print('VIOLATION property=%s replay=%s' % (PROP, path))
